@@ -160,8 +160,18 @@ class Harness(cm.BaseB):
         g = Geo(lw, "plate" if lw == "P" else "trough", 2, 6 if lw == "P" else 3)
         if g.exists(bad):
             return "skip", None, []
+        labelled = (len(bad) + len(op)) % 2 == 0
+        if labelled:
+            ev = list(ev)
+            if op == "distribute":
+                ev[-1] = dict(ev[-1], label="step one")
+            elif isinstance(ev[-1], dict):
+                ev[-1] = dict(ev[-1], label="step one")
         out, exc = exec_event(W, ev)
         recs = list(W["wl"]["w"])
+        if labelled and out != "ok" and op not in ("dispense", "transfer_src", "transfer_dst", "evo_dispense", "remove", "add", "dispense0", "add0", "transfer0") and recs:
+            # nothing was pipetted by this call, so not even its comment may stay behind
+            return f"bad:{op}:{out}", repr(case), [("C08/record-for-nonexistent-well", f"{case['dev']}.{op} with label on {lw} well {bad!r} raised but left {recs}")]
         V = []
         if out == "ok":
             V.append(("C08/nonexistent-well-accepted", f"{case['dev']}.{op} on {lw} with well {bad!r} returned normally; records {recs}"))
